@@ -46,7 +46,7 @@ type golden struct {
 // goldens: values assigned BY FIELD NAME, expected octets written parameter by parameter
 // in the order of the SMPP v5 table cited; neighbouring parameters always differ.
 func goldens() []golden {
-	esm := pdu.ESMClass{MessageMode: 1, MessageType: 2, UDHIndicator: false, ReplyPath: true} // 0x89
+	esm := pdu.ESMClass{MessageMode: 1, MessageType: 2, UDHIndicator: false, ReplyPath: true}                          // 0x89
 	rd := pdu.RegisteredDelivery{MCDeliveryReceipt: 1, SMEOriginatedAcknowledgment: 2, IntermediateNotification: true} // 0x19
 	var gs []golden
 	add := func(name string, p interface{}, id uint32, body *specBuf) {
@@ -68,9 +68,9 @@ func goldens() []golden {
 		ProtocolID: 0x11, PriorityFlag: 0x22, ScheduleDeliveryTime: "250101000000000+", ValidityPeriod: "250102000000000+",
 		RegisteredDelivery: rd, ReplaceIfPresent: true, Message: msg, Tags: tags}, 5, smBody())
 	add("submit_multi(table 4-18)", &pdu.SubmitMulti{Header: pdu.Header{Sequence: 7}, ServiceType: "WAP",
-		SourceAddr: pdu.Address{TON: 1, NPI: 2, No: "1000"},
+		SourceAddr:   pdu.Address{TON: 1, NPI: 2, No: "1000"},
 		DestAddrList: pdu.DestinationAddresses{Addresses: []pdu.Address{{TON: 3, NPI: 4, No: "2000"}}, DistributionList: []string{"friends"}},
-		ESMClass: esm, ProtocolID: 0x11, PriorityFlag: 0x22, ScheduleDeliveryTime: "s", ValidityPeriod: "v",
+		ESMClass:     esm, ProtocolID: 0x11, PriorityFlag: 0x22, ScheduleDeliveryTime: "s", ValidityPeriod: "v",
 		RegisteredDelivery: rd, ReplaceIfPresent: false, Message: msg}, 0x21,
 		(&specBuf{}).cstr("WAP").addr(1, 2, "1000").i1(2).i1(1).addr(3, 4, "2000").i1(2).cstr("friends").
 			i1(0x89).i1(0x11).i1(0x22).cstr("s").cstr("v").i1(0x19).i1(0).i1(0x08).i1(0x33).i1(2).raw([]byte("hi")))
@@ -141,6 +141,7 @@ func corrC02(r *Run) {
 	ts := pduTypes()
 	// (1) goldens by name
 	for _, g := range goldens() {
+		r.SetReplay(replayValue(g.p))
 		_, err, w, panicked, pmsg := marshalRec(g.p)
 		r.Count("golden/"+g.name, true, "golden")
 		in := fmt.Sprintf("golden %s %s", g.name, coqValue(g.p))
@@ -225,6 +226,7 @@ func corrC02(r *Run) {
 		frame := sb.b
 		binary.BigEndian.PutUint32(frame, uint32(len(frame)))
 		v.Field(ti).Set(reflect.ValueOf(tg))
+		r.SetReplay(replayStream(frame, []int{len(frame)}))
 		o := readOnce(&chunkReader{data: frame, sched: []int{len(frame)}})
 		r.Count(fmt.Sprintf("%x", frame), true, "tlv-order/"+t.Name)
 		in := fmt.Sprintf("readpdu %x", frame)
@@ -269,6 +271,7 @@ func corrC02(r *Run) {
 		}
 		sb.i1(0).i1(0).i1(0).cstr("").cstr("").i1(0).i1(0).i1(0).i1(0).i1(1).raw([]byte{0x41})
 		frame := specFrame(0x21, 9, sb.b)
+		r.SetReplay(replayStream(frame, []int{len(frame)}))
 		o := readOnce(&chunkReader{data: frame, sched: []int{len(frame)}})
 		r.Count(fmt.Sprintf("%x", frame), true, "dest-order")
 		in := fmt.Sprintf("readpdu %x", frame)
@@ -346,6 +349,7 @@ func corrC02(r *Run) {
 			&pdu.DeliverSMResp{Header: pdu.Header{Sequence: 1}, Tags: pdu.Tags{5: long(c)}}, c <= 65535})
 	}
 	for _, m := range maybes {
+		r.SetReplay(replayValue(m.p))
 		_, err, w, panicked, pmsg := marshalRec(m.p)
 		r.Count("maybe/"+m.what, true, "field-width boundary")
 		in := fmt.Sprintf("marshal %T %s", m.p, m.what)
@@ -365,6 +369,7 @@ func corrC02(r *Run) {
 	}
 	for _, b := range bads {
 		term := coqValue(b.p)
+		r.SetReplay(replayValue(b.p))
 		_, err, w, panicked, pmsg := marshalRec(b.p)
 		r.Count("bad/"+b.what+term, true, "inexpressible/"+b.what)
 		in := fmt.Sprintf("marshal %T %.400s", b.p, term)
